@@ -1031,10 +1031,10 @@ func runC11(c *Ctx) {
 	}
 	hdr := c.P.Func("lib", "NewHDRHistogramPlotReporter")
 	keyH := "ladder-walk:lib.NewHDRHistogramPlotReporter"
-	if hdr == nil || len(hdr.AnonFuncs) != 1 {
+	if returnedClosure(hdr) == nil {
 		c.Undecided(keyH, r3, "NewHDRHistogramPlotReporter closure not found")
 	} else {
-		fn := hdr.AnonFuncs[0]
+		fn := returnedClosure(hdr)
 		c.Saw("function " + shortFn(fn))
 		var qcalls []*ssa.Call
 		eachInstr(fn, func(i ssa.Instruction) {
